@@ -1258,13 +1258,17 @@ pub(crate) fn eval_query(ctx: &Context, expr: &Query) -> Result<QueryReply, Quer
                 }
             }
             if let Some((dim, 1)) = val.unit.as_single() {
-                dim_name = ctx
-                    .canonicalize(dim.as_str())
-                    .unwrap_or_else(|| dim.to_string());
-                // Categories are keyed by the name a unit is defined
-                // under, which for a base unit is its id.
-                let category = ctx.registry.categories.get(dim.as_str());
-                out.push((category, &dim_name));
+                // A quoted name like 'inch' is a dimension of its own
+                // which no unit is made of, not the unit inch.
+                if ctx.registry.base_units.contains(dim) {
+                    dim_name = ctx
+                        .canonicalize(dim.as_str())
+                        .unwrap_or_else(|| dim.to_string());
+                    // Categories are keyed by the name a unit is defined
+                    // under, which for a base unit is its id.
+                    let category = ctx.registry.categories.get(dim.as_str());
+                    out.push((category, &dim_name));
+                }
             }
             out.sort_by(|&(ref c1, ref n1), &(ref c2, ref n2)| {
                 use std::cmp::Ordering;
